@@ -115,6 +115,13 @@ def work(ctx):
         ctx.count("operands", sum(1 for u in uses if u))
         # tables in first-use order with no unreferenced entry (read independently): no override at all
         in_order = not unref and all(r == i for kind in ranks for i, r in ranks[kind].items())
+        # the corollary presupposes tables without two entries the library regards as the same constant: CPython keeps
+        # several NaN objects apart, the library identifies all NaNs (C08), so the later one NEEDS its override (the
+        # rule itself - an override only where stripping it changes the re-encoding - is checked above for every entry)
+        keys = [repr(E.t_iconst_nan(x)) for x in k.co_consts if not isinstance(x, types.CodeType)]
+        if len(set(keys)) != len(keys):
+            ctx.count("tables-with-key-equal-entries")
+            in_order = False
         ctx.count("tables-in-first-use-order:%s" % in_order)
         if in_order and (noverride or d._additional_args):
             ctx.violation("in-order-has-overrides", "%s: tables are in first-use order with no unreferenced entry, yet %d overrides and %d additional args"
